@@ -361,6 +361,13 @@ def chainForSig (ints roots : List Cert) : Option (List Cert) :=
   | none => none
   | some last => some (ints ++ roots.filter fun r => last.issuer == r.subject && r.signsLast)
 
+/-- option plumbing (authority/options.go): `WithX509IntermediateCerts(ints...)` *sets* the list of
+    intermediates, `WithX509Signer(issuing, key)` / `WithX509SignerChain` *append* their chain to it.
+    An embedder that hands the issuing certificate to the signer option and the complete list to
+    `WithX509IntermediateCerts` therefore ends up with `ints` when the signer option comes first,
+    and with `ints ++ [issuing]` when it comes last. -/
+def intsIcFirst (ints : List Cert) : List Cert := ints ++ ints.take 1
+
 /-- the authority's decision for a certificate's names (current code) -/
 def authorityValidateF (ints roots : List Cert) (n : Names) : Verdict :=
   match chainForSig ints roots with
